@@ -19,6 +19,7 @@ pub static PROP: Prop = Prop {
     rule: "triples (f,g,h) of generated well-formed diagrams, strict and lax (lax ones with random pending pairs); non-trivial = f and g both have >= 1 node and at least one of them has a hyperedge or an interface leg; distinct = hash of (f,g,h, pending pairs)",
     assumptions: &["field-for-field comparison after decoding every raw table (segment sizes, codomains) of the strict result"],
     fixed: None,
+    scale: None,
 };
 
 fn check(t: &mut Tape, ctx: &mut Ctx) -> CheckResult {
@@ -78,6 +79,12 @@ fn check(t: &mut Tape, ctx: &mut Ctx) -> CheckResult {
     ensure!(ctx, gotl2 == wantl, "lax-tensor-is-juxtaposition", "lax | differs\n  got : {}\n  want: {}", gotl2.pretty(), wantl.pretty());
     let gotl3 = wf(ctx, "lax-tensor-wf", from_lax(&Monoidal::tensor(&lf, &lg)), "lax Monoidal::tensor")?;
     ensure!(ctx, gotl3 == wantl, "lax-tensor-is-juxtaposition", "lax Monoidal::tensor differs");
+    // in-place form: the same literal juxtaposition (hyperedges of f first, then those of g)
+    ctx.sub("lax-tensor-assign-is-juxtaposition");
+    let mut ta = lf.clone();
+    ta.tensor_assign(lg.clone());
+    let got_ta = wf(ctx, "lax-tensor-wf", from_lax(&ta), "lax tensor_assign")?;
+    ensure!(ctx, got_ta == wantl, "lax-tensor-assign-is-juxtaposition", "tensor_assign differs from juxtaposition\n  got : {}\n  want: {}", got_ta.pretty(), wantl.pretty());
     ctx.sub("lax-tensor-assoc-unit");
     let l = lf.tensor(&lg).tensor(&lh);
     let r = lf.tensor(&lg.tensor(&lh));
